@@ -4,7 +4,7 @@
  * (root marked done, then every table entry that is still in inode_dir_map, in table order):
  * "every directory is connected to the root, and its '..' names its parent".
  *
- * ND = 6 directories: root (2), lost+found (11), 12, 13, 14, 15.  Symbolic for each: the parent pass 2
+ * ND = 6 directories: root (inode 2), lost+found (3), 4, 5, 6, 7 (pass 3 attaches no meaning to the numbers).  Symbolic for each: the parent pass 2
  * recorded (0 = none, or any directory of the table), the inode its '..' entry names (any 32-bit
  * value), membership in inode_dir_map.
  *
@@ -26,10 +26,12 @@
 #ifndef ANSWER
 #define ANSWER 0
 #endif
+#ifndef ND
 #define ND 6
+#endif
 #define ROOT 2
-#define LNF 11
-#define VF_NPOS 16		/* inode numbers 1..15 */
+#define LNF 3
+#define VF_NPOS (ND + 2)	/* inode numbers 1 .. ND + 1 */
 
 #include "e2fsck/pass3.c"
 #include "env.c"
@@ -52,7 +54,7 @@ static int vf_nprob, vf_nother, vf_badarg, vf_nreconnect, vf_nfixdd, vf_fixdd_ba
 static unsigned char vf_unconn_at[ND], vf_looped_at[ND], vf_baddd_at[ND], vf_reconn_at[ND];
 static __u32 vf_baddd_ino2[ND], vf_baddd_dir[ND];
 
-#define VF_INO(k) ((k) == 0 ? ROOT : 10 + (k))
+#define VF_INO(k) ((k) + 2)		/* table slot -> inode number: root 2, lost+found 3, ... */
 
 /* STUB: fix_problem() records code and directory and answers ANSWER */
 int fix_problem(e2fsck_t ctx, problem_t code, struct problem_context *pctx)
@@ -207,12 +209,31 @@ int main(void)
 			if (IN.parent[k] == (__u32) VF_INO(j))
 				ok = 1;
 		ASSUME(ok);
+		/* ASSUME: no directory other than the root is its own parent (pass 2 rejects an entry naming its own directory: PR_2_LINK_DOT) */
+		ASSUME(k == 0 || IN.parent[k] != (__u32) VF_INO(k));
 		vf_parent[k] = IN.parent[k];
 		vf_dotdot[k] = IN.dotdot[k];
 	}
 #if ANSWER == 1
 	/* ASSUME: lost+found is (made) a directory entered in the root before anything is reconnected (e2fsck_get_lost_and_found) */
 	ASSUME(IN.parent[1] == ROOT && IN.dotdot[1] == ROOT && IN.isdir[1] == 1);
+#endif
+#ifdef SECOND
+	/*
+	 * SECOND: the table the next run's passes 1-2 rebuild from what a finished e2fsck -y left on disk, i.e. any table with the
+	 * properties the ANSWER 1 query establishes ("yes: afterwards ..."): no live directory's chain ends short of the root, every
+	 * live directory's '..' names its parent.  ASSUME: passes 1-2 rebuild parent = the directory holding the entry, '..' as rewritten.
+	 */
+	for (k = 0; k < ND; k++)
+		if (IN.isdir[k]) {
+			ASSUME(ref_chain(IN.parent, k, &e) != REF_DANGLING);
+			ASSUME(IN.dotdot[k] == IN.parent[k]);
+		}
+#endif
+#ifdef LOOPCHECK
+	/* BOUND (LOOPCHECK only): every table entry is a live directory */
+	for (k = 0; k < ND; k++)
+		ASSUME(IN.isdir[k] == 1);
 #endif
 	vf_dirmap.start = vf_done.start = vf_loop.start = 1;
 	vf_dirmap.end = vf_done.end = vf_loop.end = VF_NPOS - 1;
@@ -296,18 +317,12 @@ int main(void)
 #endif
 		}
 	PROP(vf_fs.flags == f0, "yes: a successful reconnect keeps the fs marked valid");
-	{
-		__u32 p1[ND], d1[ND];
-		for (k = 0; k < ND; k++) { p1[k] = vf_parent[k]; d1[k] = vf_dotdot[k]; }
-		vf_nprob = vf_nreconnect = vf_nfixdd = 0;
-		/* ASSUME: passes 1-2 of the next run rebuild the same table from the disk: parent = the directory holding the entry
-		 *         (lost+found for the reconnected ones), '..' as rewritten */
-		vf_run_pass3();
-		PROP(vf_nprob == 0, "second run raises no problem");
-		PROP(vf_nreconnect == 0 && vf_nfixdd == 0, "second run changes nothing");
-		for (k = 0; k < ND; k++)
-			PROP(vf_parent[k] == p1[k] && vf_dotdot[k] == d1[k], "second run keeps the directory table");
-	}
+#ifdef SECOND
+	PROP(vf_nprob == 0, "second run raises no problem");
+	PROP(vf_nreconnect == 0 && vf_nfixdd == 0, "second run changes nothing");
+	for (k = 0; k < ND; k++)
+		PROP(vf_parent[k] == IN.parent[k] && vf_dotdot[k] == IN.dotdot[k], "second run keeps the directory table");
+#endif
 #endif
 	VF_END();
 	return 0;
